@@ -338,7 +338,9 @@ func TestMC_C35(t *testing.T) {
 		Apply: func(s *c35State, e int, replaying bool, report func(key, desc string)) bool {
 			ok := c35Apply(s, e, replaying, report)
 			if ok && !replaying && s.m != nil {
-				c.Add("queries", int64(len(c35Counts)*6+3+len(s.ref)+1+1))
+				n := int64(len(c35Counts)*6 + 3 + len(s.ref) + 1 + 1) // listings + with-transactions + lookups + unknown + raw dump
+				c.Add("queries", n)
+				c.Eval(n)
 			}
 			return ok
 		},
